@@ -2,7 +2,7 @@
     (Gen.GenDate), and the lemmas that turn `kernel = true` into equations.
     Domain constants:  ordinals of 1970-01-01 .. 2100-12-31 and month ids 0 .. 1571. *)
 From Coq Require Import ZArith Lia Bool Uint63 PrimFloat String.
-From Bermuda Require Import Lib.PyPrim Lib.Loop.
+From Bermuda Require Import Lib.PyPrim Lib.Loop Lib.Calendar.
 From Gen Require Import GenDate.
 Local Open Scope Z_scope.
 
@@ -105,3 +105,14 @@ Definition dayadd_body (o q : int) : bool :=
   ieq (ord_of_date (date_add_days (date_of_ord o) q)) (iadd o q).
 (* j in [0, 801) encodes q = j - 400 *)
 Definition dayadd_kernel (o j : int) : bool := dayadd_body o (isub j 400).
+
+(* --- bridge to the Z-level calendar used by the structural models (Lib/Calendar.addm) ----------
+   on month-aligned dates (first / last day of a month) the float-based add_months generated from
+   the source is the integer month shift `addm`.  j in [0, 2*kb] encodes k = j - kb. *)
+Definition addm_body (kb : Z) (d : date) (j : int) : bool :=
+  let k := isub j (of_Z kb) in
+  if stays d k then
+    Z.eqb (to_Z (ord_of_date (py_add_months d (i2f k)))) (addm (to_Z (ord_of_date d)) (to_Z j - kb))
+  else true.
+Definition addm_kernel (kb : Z) (id j : int) : bool :=
+  addm_body kb (month_start_of_id id) j && addm_body kb (month_end_of_id id) j.
